@@ -1,14 +1,279 @@
 (* C13 — Element encodings are faithful; decoders admit only valid group elements.
-   Property theorems only; proofs are in proofs/PointCodec_proofs.v, the executable
-   model (written after the Go decoders/encoders) is model/PointCodec.v. *)
+   Property theorems only; proofs are in proofs/PointCodec_proofs.v, the executable model
+   (written after the Go decoders/encoders, tied to them by the correspondence check) is
+   model/PointCodec.v.  Every theorem quantifies over an arbitrary codec record (modulus p,
+   curve constants a b / a d, Tonelli–Shanks constants, coordinate size) and over all byte
+   strings / points; the hypotheses are explicit:
+     wcodec_ok c / ecodec_ok c :  p prime  +  closed equations on the constants
+                                   (p - 1 = 2^e (2g+1), rou^(2^(e-1)) = -1, p fits the size),
+   the latter are discharged by computation for each named curve (k256_codec_ok, ...), the
+   primality of the concrete moduli stays a visible hypothesis. *)
 From Coq Require Import ZArith Znumtheory List.
 Import ListNotations.
 Require Import V.base.Fld V.model.CurveParams V.model.Curve V.model.PointCodec V.proofs.PointCodec_proofs.
 Local Open Scope Z_scope.
 
-(* every accepted string denotes a point of the curve — for every curve (p, a, b), every
-   Tonelli–Shanks parameter set and every byte string, no hypothesis *)
+(* ---- decoders admit only valid elements (no hypothesis on p where the code re-checks) ---- *)
+
 Theorem C13_decoded_on_curve_sec1_compressed : forall c bs P,
   sec1_dec_c c bs = Some P -> w_on_curve (wc c) P = true.
 Proof. exact sec1_dec_c_on_curve. Qed.
 Print Assumptions C13_decoded_on_curve_sec1_compressed.
+
+Theorem C13_decoded_on_curve_sec1_uncompressed : forall c bs P,
+  sec1_dec_u c bs = Some P -> w_on_curve (wc c) P = true.
+Proof. exact sec1_dec_u_on_curve. Qed.
+Print Assumptions C13_decoded_on_curve_sec1_uncompressed.
+
+Theorem C13_decoded_on_curve_pasta_compressed : forall c bs P,
+  pasta_dec_c c bs = Some P -> w_on_curve (wc c) P = true.
+Proof. exact pasta_dec_c_on_curve. Qed.
+Print Assumptions C13_decoded_on_curve_pasta_compressed.
+
+Theorem C13_decoded_on_curve_pasta_uncompressed : forall c bs P,
+  pasta_dec_u c bs = Some P -> w_on_curve (wc c) P = true.
+Proof. exact pasta_dec_u_on_curve. Qed.
+Print Assumptions C13_decoded_on_curve_pasta_uncompressed.
+
+(* BLS12-381 G1: on the curve and killed by the group order *)
+Theorem C13_decoded_in_subgroup_blsg1_compressed : forall c bs P,
+  blsg1_dec_c c bs = Some P -> w_on_curve (wc c) P = true /\ w_in_subgroup c P.
+Proof. exact blsg1_dec_c_valid. Qed.
+Print Assumptions C13_decoded_in_subgroup_blsg1_compressed.
+
+Theorem C13_decoded_in_subgroup_blsg1_uncompressed : forall c bs P,
+  blsg1_dec_u c bs = Some P -> w_on_curve (wc c) P = true /\ w_in_subgroup c P.
+Proof. exact blsg1_dec_u_valid. Qed.
+Print Assumptions C13_decoded_in_subgroup_blsg1_uncompressed.
+
+Theorem C13_from_affine_blsg1_valid : forall c x y P,
+  blsg1_from_affine c x y = Some P ->
+  P = Some (x, y) /\ w_on_curve (wc c) P = true /\ w_in_subgroup c P.
+Proof. exact blsg1_from_affine_valid. Qed.
+Print Assumptions C13_from_affine_blsg1_valid.
+
+(* edwards25519 (RFC 8032 form): x is recovered through a field inverse, hence prime p *)
+Theorem C13_decoded_on_curve_ed_compressed : forall c bs P,
+  prime (ec_p c) -> ed_dec_c c bs = Some P -> e_on_curve (ec c) P = true.
+Proof. exact ed_dec_c_on_curve. Qed.
+Print Assumptions C13_decoded_on_curve_ed_compressed.
+
+Theorem C13_decoded_on_curve_ed_uncompressed : forall c bs P,
+  ed_dec_u c bs = Some P -> e_on_curve (ec c) P = true.
+Proof. exact ed_dec_u_on_curve. Qed.
+Print Assumptions C13_decoded_on_curve_ed_uncompressed.
+
+Theorem C13_decoded_in_subgroup_ed_prime_compressed : forall c bs P,
+  prime (ec_p c) -> edp_dec_c c bs = Some P -> e_on_curve (ec c) P = true /\ e_in_subgroup c P.
+Proof. exact edp_dec_c_valid. Qed.
+Print Assumptions C13_decoded_in_subgroup_ed_prime_compressed.
+
+Theorem C13_decoded_in_subgroup_ed_prime_uncompressed : forall c bs P,
+  edp_dec_u c bs = Some P -> e_on_curve (ec c) P = true /\ e_in_subgroup c P.
+Proof. exact edp_dec_u_valid. Qed.
+Print Assumptions C13_decoded_in_subgroup_ed_prime_uncompressed.
+
+(* curve25519 u-coordinates: every accepted u denotes a point of the (Edwards form of the) curve *)
+Theorem C13_decoded_on_curve_x25519 : forall c bs P,
+  prime (ec_p c) -> x_dec_c c bs = Some P -> e_on_curve (ec c) P = true.
+Proof. exact x_dec_c_on_curve. Qed.
+Print Assumptions C13_decoded_on_curve_x25519.
+
+(* ---- wrong lengths and reserved flag bytes are refused -------------------------------------- *)
+
+Theorem C13_wrong_length_rejected_sec1 : forall c bs,
+  (length bs <> S (wc_len c) -> sec1_dec_c c bs = None) /\
+  (length bs <> S (2 * wc_len c) -> sec1_dec_u c bs = None).
+Proof. exact sec1_wrong_length. Qed.
+Print Assumptions C13_wrong_length_rejected_sec1.
+
+Theorem C13_wrong_tag_rejected_sec1 : forall c tag r,
+  (tag <> 2 -> tag <> 3 -> sec1_dec_c c (tag :: r) = None) /\
+  (tag <> 4 -> sec1_dec_u c (tag :: r) = None).
+Proof. exact sec1_wrong_tag. Qed.
+Print Assumptions C13_wrong_tag_rejected_sec1.
+
+Theorem C13_wrong_length_rejected_pasta : forall c bs,
+  (length bs <> wc_len c -> pasta_dec_c c bs = None) /\
+  (length bs <> (2 * wc_len c)%nat -> pasta_dec_u c bs = None).
+Proof. exact pasta_wrong_length. Qed.
+Print Assumptions C13_wrong_length_rejected_pasta.
+
+Theorem C13_wrong_length_rejected_blsg1 : forall c bs,
+  (length bs <> wc_len c -> blsg1_dec_c c bs = None) /\
+  (length bs <> (2 * wc_len c)%nat -> blsg1_dec_u c bs = None).
+Proof. exact blsg1_wrong_length. Qed.
+Print Assumptions C13_wrong_length_rejected_blsg1.
+
+(* compressed BLS12-381 flags.  The full statement "every reserved flag combination is refused"
+   is FALSE of blsg1_dec_u (the uncompressed decoder of the code masks the C and S bits away and
+   accepts anything under the I bit) — reported by the correspondence harness as a finding; only
+   the compressed format is proved. *)
+Theorem C13_wrong_flags_rejected_blsg1_compressed_partial : forall c b0 r,
+  (flagC b0 <> 1 -> blsg1_dec_c c (b0 :: r) = None) /\
+  (flagI b0 = 1 -> flagS b0 = 1 -> blsg1_dec_c c (b0 :: r) = None) /\
+  (flagI b0 = 1 -> (b0 mod 32 <> 0 \/ all_zero r = false) -> blsg1_dec_c c (b0 :: r) = None).
+Proof. exact blsg1_wrong_flags. Qed.
+Print Assumptions C13_wrong_flags_rejected_blsg1_compressed_partial.
+
+Theorem C13_wrong_length_rejected_ed_x : forall c bs,
+  (length bs <> ec_len c -> ed_dec_c c bs = None) /\
+  (length bs <> (2 * ec_len c)%nat -> ed_dec_u c bs = None) /\
+  (length bs <> ec_len c -> x_dec_c c bs = None).
+Proof. exact ed_wrong_length. Qed.
+Print Assumptions C13_wrong_length_rejected_ed_x.
+
+(* ---- scalars / field elements: accepted bytes denote their value modulo the order ------------ *)
+
+Theorem C13_field_decode_reduces : forall q len bs v,
+  fld_from_bytes q len bs = Some v -> length bs = len /\ v = be_val bs mod q.
+Proof. exact fld_from_bytes_reduces. Qed.
+Print Assumptions C13_field_decode_reduces.
+
+Theorem C13_field_decode_wide_reduces : forall q len bs v,
+  fld_from_wide q len bs = Some v -> (length bs <= 2 * len)%nat /\ v = be_val bs mod q.
+Proof. exact fld_from_wide_reduces. Qed.
+Print Assumptions C13_field_decode_wide_reduces.
+
+Theorem C13_field25519_decode_reduces : forall p bs v,
+  fld25519_from_bytes p bs = Some v -> length bs = 32%nat /\ be_val bs < 2 ^ 255 /\ v = be_val bs mod p.
+Proof. exact fld25519_from_bytes_reduces. Qed.
+Print Assumptions C13_field25519_decode_reduces.
+
+(* ---- square roots: Tonelli–Shanks as coded finds a root of every square ---------------------- *)
+
+Theorem C13_sqrt_correct : forall p e rou, prime p -> (1 <= e)%nat ->
+  p - 1 = 2 ^ Z.of_nat e * (2 * ts_progenitor p e + 1) -> 0 <= ts_progenitor p e ->
+  sq_iter p (e - 1) rou = p - 1 ->
+  forall w, 0 <= w < p -> exists s, ts_sqrt p e rou (mulm p w w) = Some s.
+Proof. exact ts_sqrt_complete. Qed.
+Print Assumptions C13_sqrt_correct.
+
+Theorem C13_sqrt_sound : forall p e rou v s, ts_sqrt p e rou v = Some s -> mulm p s s = v mod p.
+Proof. exact ts_sqrt_sound. Qed.
+Print Assumptions C13_sqrt_sound.
+
+(* ---- decode (encode P) = P off the reserved identity encodings -------------------------------
+   Full statement "for every point of the curve" is refuted below for P-256; what holds for every
+   curve is the statement with the side condition x <> 0 (SEC1 compressed: 02/03||0 is decoded as
+   the identity), (x,y) <> (0,0) (uncompressed), not (x = 0 and y even) (pasta). *)
+
+Theorem C13_decode_encode_point_sec1_compressed : forall c, wcodec_ok c -> forall P,
+  w_on_curve (wc c) P = true -> w_canon c P -> (forall y, P <> Some (0, y)) ->
+  sec1_dec_c c (sec1_enc_c c P) = Some P.
+Proof. exact sec1_roundtrip_c. Qed.
+Print Assumptions C13_decode_encode_point_sec1_compressed.
+
+Theorem C13_decode_encode_point_sec1_uncompressed : forall c, wcodec_ok c -> forall P,
+  w_on_curve (wc c) P = true -> w_canon c P -> P <> Some (0, 0) ->
+  sec1_dec_u c (sec1_enc_u c P) = Some P.
+Proof. exact sec1_roundtrip_u. Qed.
+Print Assumptions C13_decode_encode_point_sec1_uncompressed.
+
+(* b a quadratic non-residue: no point has x = 0 and the round trip holds for ALL points *)
+Theorem C13_decode_encode_point_sec1_all_when_b_nonresidue : forall c P, wcodec_ok c ->
+  euler (wc_p c) (wp_b (wc c)) = wc_p c - 1 ->
+  w_on_curve (wc c) P = true -> w_canon c P ->
+  sec1_dec_c c (sec1_enc_c c P) = Some P.
+Proof. exact sec1_roundtrip_c_all. Qed.
+Print Assumptions C13_decode_encode_point_sec1_all_when_b_nonresidue.
+
+Theorem C13_encode_injective_off_reserved_sec1 : forall c, wcodec_ok c ->
+  (forall P Q, sec1_good_c c P -> sec1_good_c c Q -> sec1_enc_c c P = sec1_enc_c c Q -> P = Q) /\
+  (forall P Q, sec1_good_u c P -> sec1_good_u c Q -> sec1_enc_u c P = sec1_enc_u c Q -> P = Q).
+Proof. exact sec1_encode_injective. Qed.
+Print Assumptions C13_encode_injective_off_reserved_sec1.
+
+Theorem C13_decode_encode_point_pasta_compressed : forall c, wcodec_ok c ->
+  (1 <= wc_len c)%nat -> wc_p c <= top_bit c -> forall P,
+  w_on_curve (wc c) P = true -> w_canon c P -> (forall y, P = Some (0, y) -> y mod 2 = 1) ->
+  pasta_dec_c c (pasta_enc_c c P) = Some P.
+Proof. exact pasta_roundtrip_c. Qed.
+Print Assumptions C13_decode_encode_point_pasta_compressed.
+
+Theorem C13_decode_encode_point_pasta_uncompressed : forall c P, wcodec_ok c ->
+  w_on_curve (wc c) P = true -> w_canon c P -> P <> Some (0, 0) ->
+  pasta_dec_u c (pasta_enc_u c P) = Some P.
+Proof. exact pasta_roundtrip_u. Qed.
+Print Assumptions C13_decode_encode_point_pasta_uncompressed.
+
+(* edwards25519: the identity is an ordinary affine point, no reserved encoding, no side condition *)
+Theorem C13_decode_encode_point_ed_compressed : forall c, ecodec_ok c -> forall P,
+  e_on_curve (ec c) P = true -> e_canon c P -> ed_dec_c c (ed_enc_c c P) = Some P.
+Proof. exact ed_roundtrip_c. Qed.
+Print Assumptions C13_decode_encode_point_ed_compressed.
+
+Theorem C13_decode_encode_point_ed_uncompressed : forall c, ecodec_ok c -> forall P,
+  e_on_curve (ec c) P = true -> e_canon c P -> ed_dec_u c (ed_enc_u c P) = Some P.
+Proof. exact ed_roundtrip_u. Qed.
+Print Assumptions C13_decode_encode_point_ed_uncompressed.
+
+Theorem C13_decode_encode_point_ed_prime_subgroup : forall c, ecodec_ok c -> forall P,
+  e_on_curve (ec c) P = true -> e_canon c P -> e_in_subgroup c P ->
+  edp_dec_c c (ed_enc_c c P) = Some P /\ edp_dec_u c (ed_enc_u c P) = Some P.
+Proof. exact edp_roundtrip. Qed.
+Print Assumptions C13_decode_encode_point_ed_prime_subgroup.
+
+(* ---- the named curves (primality of the modulus is the only hypothesis left) ----------------- *)
+
+Theorem C13_k256_decode_encode_all_points : forall P, prime (wp_p k256_params) ->
+  w_on_curve k256_params P = true -> w_canon k256_codec P ->
+  sec1_dec_c k256_codec (sec1_enc_c k256_codec P) = Some P.
+Proof. exact k256_roundtrip_all. Qed.
+Print Assumptions C13_k256_decode_encode_all_points.
+
+Theorem C13_pallas_decode_encode_all_points : forall P, prime (wp_p pallas_params) ->
+  w_on_curve pallas_params P = true -> w_canon pallas_codec P ->
+  pasta_dec_c pallas_codec (pasta_enc_c pallas_codec P) = Some P.
+Proof. exact pallas_roundtrip_all. Qed.
+Print Assumptions C13_pallas_decode_encode_all_points.
+
+Theorem C13_vesta_decode_encode_all_points : forall P, prime (wp_p vesta_params) ->
+  w_on_curve vesta_params P = true -> w_canon vesta_codec P ->
+  pasta_dec_c vesta_codec (pasta_enc_c vesta_codec P) = Some P.
+Proof. exact vesta_roundtrip_all. Qed.
+Print Assumptions C13_vesta_decode_encode_all_points.
+
+Theorem C13_ed25519_codec_ok : prime (ep_p ed25519_params) -> ecodec_ok ed25519_codec.
+Proof. exact ed25519_codec_ok. Qed.
+Print Assumptions C13_ed25519_codec_ok.
+
+Theorem C13_p256_codec_ok : prime (wp_p p256_params) -> wcodec_ok p256_codec.
+Proof. exact p256_codec_ok. Qed.
+Print Assumptions C13_p256_codec_ok.
+
+(* P-256 (finding F2): full statement
+     forall P, w_on_curve p256_params P = true -> w_canon p256_codec P ->
+               sec1_dec_c p256_codec (sec1_enc_c p256_codec P) = Some P
+   is FALSE of the faithful model: the point (0, sqrt b) is encoded as 02||00..00, the reserved
+   identity encoding, and decoded as the identity. *)
+Theorem C13_decode_encode_point_p256_refuted :
+  exists P, w_on_curve p256_params P = true /\ w_canon p256_codec P /\
+            sec1_dec_c p256_codec (sec1_enc_c p256_codec P) <> Some P.
+Proof. exact p256_roundtrip_refuted. Qed.
+Print Assumptions C13_decode_encode_point_p256_refuted.
+
+Theorem C13_encode_injective_p256_refuted :
+  exists P Q, P <> Q /\ w_on_curve p256_params P = true /\ w_on_curve p256_params Q = true /\
+              sec1_enc_c p256_codec P = sec1_enc_c p256_codec Q.
+Proof. exact p256_encode_not_injective. Qed.
+Print Assumptions C13_encode_injective_p256_refuted.
+
+(* the collision is generic: on any curve a point with x = 0 decodes to the identity *)
+Theorem C13_sec1_x0_decodes_to_identity : forall c y,
+  sec1_dec_c c (sec1_enc_c c (Some (0, y))) = Some None.
+Proof. exact sec1_x0_collides. Qed.
+Print Assumptions C13_sec1_x0_decodes_to_identity.
+
+(* ---- the hypotheses are satisfiable: a toy curve over F_11 with every constant checked, and the
+   conclusions on the real generators by computation --------------------------------------------- *)
+Example C13_nonvacuous :
+  wcodec_ok toy_codec /\
+  euler (wc_p toy_codec) (wp_b (wc toy_codec)) = wc_p toy_codec - 1 /\
+  w_on_curve (wc toy_codec) (Some (5, 0)) = true /\
+  sec1_dec_c toy_codec (sec1_enc_c toy_codec (Some (4, 4))) = Some (Some (4, 4)) /\
+  sec1_dec_c k256_codec (sec1_enc_c k256_codec (w_gen k256_params)) = Some (w_gen k256_params) /\
+  pasta_dec_c pallas_codec (pasta_enc_c pallas_codec (w_gen pallas_params)) = Some (w_gen pallas_params) /\
+  ed_dec_c ed25519_codec (ed_enc_c ed25519_codec (e_gen ed25519_params)) = Some (e_gen ed25519_params) /\
+  e_on_curve ed25519_params (e_gen ed25519_params) = true.
+Proof. exact c13_nonvacuous. Qed.
